@@ -62,6 +62,10 @@ func GenerateAST(ctx context.Context, oapi *openapi3.T, cfg Config) (*ast.Schema
 
 func (g *generator) declareDefinition(schemas openapi3.Schemas) error {
 	for name, schemaRef := range schemas {
+		if schemaRef == nil || (schemaRef.Value == nil && !isRef(schemaRef.Ref)) {
+			return fmt.Errorf("schema '%s' is empty", name)
+		}
+
 		def, err := g.walkSchemaRef(schemaRef)
 		if err != nil {
 			return err
@@ -82,8 +86,16 @@ func (g *generator) declareDefinition(schemas openapi3.Schemas) error {
 }
 
 func (g *generator) walkSchemaRef(schemaRef *openapi3.SchemaRef) (ast.Type, error) {
+	if schemaRef == nil {
+		return ast.Type{}, fmt.Errorf("empty schema")
+	}
+
 	if isRef(schemaRef.Ref) {
 		return g.walkRef(schemaRef)
+	}
+
+	if schemaRef.Value == nil {
+		return ast.Type{}, fmt.Errorf("empty schema")
 	}
 
 	return g.walkDefinitions(schemaRef.Value)
